@@ -179,6 +179,9 @@ def _check_full(plan, out, ls, rs, lnames, rnames, by1, by2, lk, rk, nl, nr):
                 # does not say which one wins, so either is accepted there.
                 if cn in collide and ri is not None and _same_promoted(oc[cn][j], rs[cn][1][ri]):
                     continue
+                # a paired row may show the (equal) key value of either side, e.g. 0.0 for -0.0
+                if cn in by1 and ri is not None and _same_promoted(oc[cn][j], rk[by1.index(cn)][ri]):
+                    continue
                 raise Violation("full_join: left cell altered", column=cn, row=j, got=oc[cn][j], want=ls[cn][1][li])
         if ri is not None:
             seen_r.add(ri)
